@@ -51,6 +51,25 @@ def cases(rng, tier):
         if n <= 300:
             yield ("crcspec %s" % hexs(d), "crc-bitserial")
     yield from large_cases(rng, thorough)
+    # --- the feature byte is part of the checksummed file: files with further (unassigned) feature bits and a checksum
+    # computed over them are accepted; flipping any of those bits afterwards is corruption
+    for L in (13, 40, 300):
+        f0 = valid_file(rng, L)
+        for extra in (0x02, 0x80, 0x7e, 0xfe):
+            g = bytearray(f0)
+            g[5] |= extra
+            c = skyb.ap_crc32(bytes(g[:6]) + b"\0\0\0\0" + bytes(g[10:]))
+            g[6:10] = bytes([c & 255, (c >> 8) & 255, (c >> 16) & 255, (c >> 24) & 255])
+            for r in ("mem", "fd"):
+                yield ("file %s %s v,c" % (r, hexs(g)), "feature-bits-valid")
+            for bit in range(1, 8):
+                h = bytearray(g)
+                h[5] ^= 1 << bit
+                yield ("file %s %s c" % (rng.choice(["mem", "fd"]), hexs(h)), "feature-bit-flip")
+        for bit in range(1, 8):
+            h = bytearray(f0)
+            h[5] ^= 1 << bit
+            yield ("file %s %s c" % (rng.choice(["mem", "fd"]), hexs(h)), "feature-bit-flip")
     # --- corrupted files
     lens = [10, 13, 24, 200, 255, 256, 257, 266, 511, 512, 513, 522] + ([768, 1024, 1025, 1290] if thorough else [768])
     for L in lens:
